@@ -127,6 +127,8 @@ def replay(ctx, path):
     d = json.load(open(path))
     drv = build(ctx)
     e = d["event"]
+    if e.get("e") == "Fault":
+        return core.replay_fault(ctx, d, drv, "PrintfTrace", path)
     args = []
     for a in e["args"]:
         args.append("s:%s:1" % fmt(a["s"]) if a["s"] else "i:" + fmt(a["v"]))
